@@ -15,7 +15,9 @@ Types     == {"asa", "ios", "linux", "panos", "nsx"}
 Frontends == {"drc", "doapprove"}
 Verbs     == {"approve", "compare"}
 Markers   == {"present", "absent", "unconfigured"}
-HAStates  == {"off", "active", "passive"}
+\* local state of a PAN-OS HA member; everything but "active" (and "off" = no HA) must be left alone
+HAStates  == {"off", "active", "passive", "suspended"}
+NotActive == {"passive", "suspended"}
 FaultKinds == {"none", "reject", "garbage", "stall", "close"}
 \* phases of the dialogue in order
 Phases == <<"login", "setup", "namecheck", "fetch", "gate", "arm", "apply", "disarm", "save", "close", "end">>
@@ -75,7 +77,7 @@ Advance(next) ==
 
 Login     == ph = "login" /\ IF FaultHere("login") THEN Abort ELSE Advance("setup")
 Setup     == ph = "setup" /\ IF FaultHere("setup") THEN Abort ELSE Advance("namecheck")
-NameCheck == ph = "namecheck" /\ IF FaultHere("namecheck") \/ ~par.nameOK \/ par.ha = "passive" THEN Abort
+NameCheck == ph = "namecheck" /\ IF FaultHere("namecheck") \/ ~par.nameOK \/ par.ha \in NotActive THEN Abort
                                  ELSE Advance("fetch")
 Fetch     == ph = "fetch" /\ IF FaultHere("fetch") THEN Abort ELSE Advance("gate")
 
